@@ -31,6 +31,9 @@ CORPUS = [
     # two variables fail at every choice, a third depends on one of them only, a fourth on neither
     'int f(int c,int a,int b,int r,int s){ while (c) { a = a * a; b = b * b; r = a; s = c; } }',
     'int f(int c,int a,int r,int s){ while (c) { a = a * a; r = c; s = s; } }',
+    # a dependent variable with three sources, the restricting one last / first in the variable order
+    'int f(int n,int base,int z,int out){ int i; for (i = 0; i < n; i++) { z = z + base; out = z * z; } }',
+    'int f(int n,int base,int acc,int out){ int i; for (i = 0; i < n; i++) { acc = acc + base; out = acc * acc; } }',
 ]
 
 
@@ -57,6 +60,33 @@ def failing_family(rng):
         return f'int f(int c,int a,int b,int d,int r,int s,int t){{ while (c) {{ {body} }} }}'
     return f'int f(int n,int c,int a,int b,int d,int r,int s,int t){{ int i; for (i = 0; i < n; i++) {{ {body} }} }}'
 
+
+
+def dependent_family(rng):
+    """a counted loop with 1-3 accumulators (`z = z + b`: the derivation succeeds at some choices only) and
+    variables computed from them (`out = z * z`, `out = z + w`, `out = z`), names drawn at random so that the
+    restricting source is first / last / in the middle of the (sorted) variable list; 2-6 sources per dependent"""
+    names = rng.sample(['a', 'b', 'c', 'd', 'e', 'g', 'h', 'k', 'm', 'p', 'q', 'r', 's', 't', 'u', 'v', 'w', 'z'], 9)
+    guard, accs, bases, deps = names[0], names[1:1 + rng.randint(1, 3)], names[4:6], names[6:6 + rng.randint(1, 3)]
+    stmts = [f'{a} = {a} {rng.choice("+*")} {rng.choice(bases)};' for a in accs]
+    for d in deps:
+        k = rng.random()
+        a1 = rng.choice(accs)
+        if k < 0.4:
+            stmts.append(f'{d} = {a1} * {a1};')
+        elif k < 0.7:
+            stmts.append(f'{d} = {a1} + {rng.choice(accs + bases)};')
+        elif k < 0.85:
+            stmts.append(f'{d} = {a1};')
+        else:
+            stmts.append(f'{d} = {rng.choice(bases)} * {a1};')
+    if rng.random() < 0.5 and len(deps) > 1:
+        stmts.append(f'{deps[0]} = {deps[0]} + {deps[1]};')
+    body = ' '.join(stmts)
+    params = ','.join('int ' + n for n in sorted(set([guard] + accs + bases + deps)))
+    if rng.random() < 0.75:
+        return f'int f({params}){{ int i; for (i = 0; i < {guard}; i++) {{ {body} }} }}'
+    return f'int f({params}){{ while ({guard}) {{ {body} }} }}'
 
 
 def observe_loop(loop_node):
@@ -102,6 +132,8 @@ def run(ctx):
     srcs = list(CORPUS)
     for i in range(ctx.budget(24, 400)):
         srcs.append(failing_family(rng))
+    for i in range(ctx.budget(40, 600)):
+        srcs.append(dependent_family(rng))
     for i in range(ctx.budget(60, 2000)):
         g = Gen(rng, Opts(sugar=(i % 4 == 0), max_bin=5, max_stmts=3, nvars=rng.choice([3, 4, 5])))
         srcs.append(g.function())
